@@ -814,7 +814,7 @@ class PathExec:
 
     # ---- rvalues
     def rvalue(s, fr, rv):
-        fm = re.match(r'^(?:const )?(.+?) as (?:unsafe )?(?:extern "[^"]*" )?fn\(.*\) \(PointerCoercion\((?:ReifyFnPointer|ClosureFnPointer).*\)\)$', rv, re.S)
+        fm = re.match(r'^(?:const )?(.+?) as (?:unsafe )?(?:extern "[^"]*" )?fn\(.*?\)(?: -> .+?)? \(PointerCoercion\((?:ReifyFnPointer|ClosureFnPointer).*\)\)$', rv, re.S)
         if fm:          # a function item / capture-less closure coerced to a function pointer
             op = fm.group(1).strip()
             if op.startswith(('copy ', 'move ')): return s.operand(fr, op)
